@@ -7,11 +7,12 @@ instances).  The body of the `with` statement is modelled at the `yield`: it bui
 sequence of up to three items in a function body, each item one of
 
     pure op | side-effecting op | conditional whose case holds a side effect | conditional with a pure case |
-    nested dataflow graph holding a side effect | conditional whose case holds a nested graph holding a side effect
+    nested dataflow graph holding a side effect | conditional whose case holds a nested graph holding a side effect |
+    tail loop holding a side effect | control-flow graph whose block holds one | tail loop holding a conditional holding one
 
 Decided, for every sequence: in every dataflow parent (function body, case, nested graph) the recorded order links are exactly the
 chain  Input -> e1 -> e2 -> ... -> en -> Output  over its children that have a side effect or (transitively) contain one, in
-insertion order -- nothing for pure nodes, nothing inside a Conditional (its cases are alternatives), no self-loops; after the
+insertion order -- nothing for pure nodes, nothing among the cases of a Conditional or the blocks of a CFG, no self-loops; after the
 `with` body -- normal exit and exception -- `Hugr.add_node` is the original function again.
 """
 
@@ -24,7 +25,7 @@ from ..absint.pyeval import PyEval, Raised, Tok
 from ..report import Ctx
 
 CORE = "guppylang_internals.compiler.core"
-ITEMS = ("pure", "effect", "cond(effect)", "cond(pure)", "dfg(effect)", "cond(dfg(effect))")
+ITEMS = ("pure", "effect", "cond(effect)", "cond(pure)", "dfg(effect)", "cond(dfg(effect))", "loop(effect)", "cfg(effect)", "loop(cond(effect))")
 
 
 class Model:
@@ -99,6 +100,13 @@ def run(ctx: Ctx) -> bool:
                         c = add(m.hugr, op("Conditional"), parent, None, None)
                         case = container("Case", c)
                         eff = build(inner, case)
+                    elif outer == "cfg":
+                        c = add(m.hugr, op("CFG"), parent, None, None)
+                        blk = container("DataflowBlock", c)
+                        eff = build(inner, blk)
+                    elif outer == "loop":
+                        c = container("TailLoop", parent)
+                        eff = build(inner, c)
                     else:
                         c = container("DFG", parent)
                         eff = build(inner, c)
